@@ -1,7 +1,7 @@
 #!/venv/bin/python
 """Coverage-guided campaign (atheris / libFuzzer) over a property module's Hypothesis strategy.
 
-usage: fuzz_target.py <ID> <stats.json> [libFuzzer flags: -runs=N -seed=S ...]
+usage: fuzz_target.py <ID> <stats.json> [corpus dir] [libFuzzer flags: -runs=N -seed=S ...]
 
 libFuzzer mutates the byte string that drives Hypothesis's choices (`test.hypothesis.fuzz_one_input`), with the
 cincoconfig package instrumented for coverage feedback. The semantic oracle of the property runs inside the target
@@ -22,7 +22,7 @@ sys.dont_write_bytecode = True
 
 def main():
     prop, stats_path = sys.argv[1], sys.argv[2]
-    argv = [sys.argv[0]] + sys.argv[3:]
+    argv = [sys.argv[0]] + [os.path.abspath(a) if not a.startswith("-") else a for a in sys.argv[3:]]
     import atheris
     from vlib import runner, sandbox
 
@@ -64,6 +64,21 @@ def main():
             flush()
 
     flush()
+    # Seed the corpus: Hypothesis needs a few hundred choice bytes before a whole case exists, and from an empty
+    # corpus libFuzzer sees no coverage gradient to grow its inputs. Deterministic pseudo-random seeds of several sizes.
+    import hashlib
+    corpus_dirs = [a for a in argv[1:] if not a.startswith("-")]
+    if corpus_dirs and not os.listdir(corpus_dirs[0]):
+        for i, size in enumerate((256, 512, 1024, 2048, 4096, 4096, 8192, 8192)):
+            blob = b""
+            counter = 0
+            while len(blob) < size:
+                blob += hashlib.sha256(b"%s-%d-%d" % (prop.encode(), i, counter)).digest()
+                counter += 1
+            # sprinkle zero runs: small choice values build small, valid structures
+            blob = bytes(b if (j // 16) % (i + 2) else 0 for j, b in enumerate(blob[:size]))
+            with open(os.path.join(corpus_dirs[0], "seed%d" % i), "wb") as fp:
+                fp.write(blob)
     atheris.Setup(argv, one_input)
     atheris.Fuzz()
 
